@@ -65,6 +65,14 @@ def gen(rng, idx, tier, seed):
         return s
     kind = ['random', 'smooth', 'adversarial', 'adversarial', 'constant',
             'steps'][idx % 6]
+    if idx % 30 == 17:
+        # a field held in a narrow integer type (category maps, counts,
+        # packed satellite fields): large swings up and down
+        ny = int(rng.integers(2, 12))
+        nx = int(rng.integers(2, 16))
+        return {'mode': 'field', 'kind': 'integer', 'ny': ny, 'nx': nx,
+                'mag': 1.0, 'seed': int(rng.integers(1 << 30)),
+                'itype': str(rng.choice(['u1', 'i1', 'i2', 'u2']))}
     big = rng.random() < 0.03
     ny = int(rng.integers(2, 41 if big else 15))
     nx = int(rng.integers(2, 61 if big else 19))
@@ -85,6 +93,13 @@ def make_field(spec):
     rng = np.random.default_rng([spec['seed'], 41])
     ny, nx = spec['ny'], spec['nx']
     kind = spec['kind']
+    if kind == 'integer':
+        info = np.iinfo(spec['itype'])
+        f = rng.integers(info.min, int(info.max) + 1, (ny, nx))
+        # saw-tooth rows: swings of nearly the whole range, both ways
+        f[:, ::2] = info.max - rng.integers(0, 6, f[:, ::2].shape)
+        f[:, 1::2] = info.min + rng.integers(0, 6, f[:, 1::2].shape)
+        return f.astype(spec['itype'])
     if kind == 'constant':
         return np.full((ny, nx), spec['mag'] * (1 if rng.random() < .5 else
                                                 -1), 'f4')
